@@ -261,7 +261,7 @@ static int s_gradient_call(dctx *c){ AF_CALL(pixman_image_composite32(c->op,c->s
 
 static void s_alphamap_setup(dctx *c)
 {
-    int W=20+c->v[0]%30; surf_make(c,W,4,(c->v[1]&1)?PIXMAN_a8r8g8b8:PIXMAN_a2r10g10b10);
+    int W=20+c->v[0]%30+((c->v[2]&4)?110:0); surf_make(c,W,4,(c->v[1]&1)?PIXMAN_a8r8g8b8:PIXMAN_a2r10g10b10);
     c->aux=img_rand(PIXMAN_a8,W,4); sv_add(c,c->aux); pixman_image_set_alpha_map(c->dst,c->aux,0,0);
     c->src=img_rand(PIXMAN_a8r8g8b8,W,4);
     if (c->v[1]&2) { c->aux2=img_rand(PIXMAN_a8,W,4); pixman_image_set_alpha_map(c->src,c->aux2,0,0); }
@@ -502,7 +502,7 @@ static int exec_dr(char **tok,int nt,char *out,size_t cap,char *orc,size_t ocap)
     pixman_region32_init(&c->clip32); pixman_region_init(&c->clip16);
     s->setup(c);
     /* 1. reference result without failure */
-    af_enable=0; int ret0=s->call(c); memcpy(c->want,c->buf,c->words*4); restore(c);
+    af_enable=0; int ret0=s->call(c); memcpy(c->want,c->buf,c->words*4); unsigned want_sum=2166136261u; for (size_t i=0;i<c->words;i++){ want_sum^=c->want[i]; want_sum*=16777619u; } for (int i=0;i<c->nsv;i++) for (size_t j=0;j<c->sv_len[i];j++){ want_sum^=((unsigned char*)c->sv_ptr[i])[j]; want_sum*=16777619u; } restore(c);
     /* 2. the call under the failure schedule */
     af_enable=1; af_arm(tok[1],atol(tok[2])); int base=af_nlive;
     int ret=s->call(c); long req=af_req; (void)base;
@@ -533,7 +533,7 @@ static int exec_dr(char **tok,int nt,char *out,size_t cap,char *orc,size_t ocap)
     pixman_region32_fini(&c->clip32); pixman_region_fini(&c->clip16); if (c->have_permit) pixman_region32_fini(&c->permit);
     if (af_nlive) ORC2("|%d block(s) still live after every object was destroyed (leak)",af_nlive);
     if (af_bad) ORC2("|free/realloc of a block that is not live");
-    snprintf(out,cap,"%d %s ; req=%ld new=%ld old=%ld other=%ld outside=%ld fin=%d",ret,outcome,req,n_new,n_old,n_other,n_out,af_nlive);
+    snprintf(out,cap,"%d %s ; req=%ld new=%ld old=%ld other=%ld outside=%ld fin=%d ref=%08x",ret,outcome,req,n_new,n_old,n_other,n_out,af_nlive,want_sum);
     return 1;
 }
 
